@@ -73,9 +73,12 @@ def run(ctx):
                 where = "protected"
                 rhdr = None
             else:
-                where = rng.choice(["protected", "recipient"])
+                # the alg member in each of the three header positions of a JSON serialization
+                where = rng.choice(["protected", "recipient", "unprotected"])
                 full = dict(prot, **({"alg": alg} if where == "protected" else {}), **extra)
                 rhdr = {"alg": alg} if where == "recipient" else (rng.choice([None, {"kid": "r1"}]))
+                if where == "unprotected":
+                    unprot = dict(unprot or {}, alg=alg)
                 kind = "general" if ser == "general" else "flat"
                 rk = pubkey(kn)
                 req = E.enc_request_json(reg, None if pre_attached else rk, sender, kind, full, unprot, aad, [(rhdr, rk if pre_attached else None)], pt)
